@@ -24,6 +24,7 @@
 #include <mutex>
 #include <memory>
 #include <list>
+#include <unistd.h>
 #define private public
 #define protected public
 #include "vsim.h"
@@ -59,7 +60,26 @@ int main()
       for (colvar *c : *(S.proxy->colvars->variables())) o << " " << vs_hex(c->value());
       o << "\n";
     };
-    if (cmd == "E") {
+    if (cmd == "D") {
+      // D <name>: cv colvar <name> delete
+      if (!configured) { o << "err noconfig\n"; continue; }
+      std::vector<std::string> words = {"cv", "colvar", a[0], "delete"};
+      std::vector<unsigned char *> argv;
+      for (auto &sw : words) argv.push_back((unsigned char *) sw.c_str());
+      cvm::clear_error();
+      int err = run_colvarscript_command(argv.size(), argv.data());
+      o << (err == COLVARS_OK ? "ok" : "err") << "\n";
+      cvm::clear_error();
+    } else if (cmd == "C") {
+      // C | <more configuration>: cv config in the middle of the session (may be rejected)
+      if (!configured) { o << "err noconfig\n"; continue; }
+      std::replace(conf.begin(), conf.end(), ';', '\n');
+      cvm::clear_error();
+      int err = S.proxy->colvars->read_config_string(conf);
+      err |= cvm::get_error();
+      o << (err == COLVARS_OK ? "ok" : "err") << " nvars " << S.proxy->colvars->variables()->size() << "\n";
+      cvm::clear_error();
+    } else if (cmd == "E" || cmd == "EF") {
       int n = ni();
       S.eng.resize(n);
       S.eng.has_cell = ni() != 0;
@@ -72,7 +92,15 @@ int main()
       S.fresh();
       configured = false;
       cvm::clear_error();
-      int err = S.proxy->colvars->read_config_string(conf);
+      int err;
+      if (cmd == "EF") {   // the same configuration through a file (cv configfile)
+        char fn[256]; snprintf(fn, sizeof(fn), "/tmp/wk/c02_conf_%d.in", (int) getpid());
+        { std::ofstream f(fn); f << conf; }
+        err = S.proxy->colvars->read_config_file(fn);
+        remove(fn);
+      } else {
+        err = S.proxy->colvars->read_config_string(conf);
+      }
       err |= cvm::get_error();
       if (err != COLVARS_OK || S.proxy->colvars->variables()->size() == 0) {
         o << "err config:" << vs_errclass(err) << "\n";
